@@ -49,6 +49,7 @@ import (
 	"sync"
 	"sync/atomic"
 	"testing"
+	"testing/synctest"
 	"time"
 
 	"github.com/redis/rueidis"
@@ -110,6 +111,9 @@ type AsidePlan struct {
 	Ghosts   []AsideGhost      `json:"ghosts,omitempty"`
 	Faults   []AsideFault      `json:"faults,omitempty"`
 	Death    *AsideDeath       `json:"death,omitempty"`
+	// Tight: fake time only advances when nothing else can happen (no random ticks between enabled events), so no
+	// request or reply is ever late in fake time; only such runs judge "the holder's liveness key must not lapse".
+	Tight bool `json:"tight_clock,omitempty"`
 }
 
 func init() {
@@ -129,6 +133,7 @@ func genAside(seed uint64, tier, variant string) any {
 		p.Clients = append(p.Clients, AsideClientSpec{Lua: r.IntN(2) == 0, ClientTTLMs: pick(r, 1000, 2000, 4000), Multiplex: -1})
 	}
 	p.Keys = 1 + r.IntN(3)
+	p.Tight = r.IntN(2) == 0
 	nt := 2 + r.IntN(7)
 	for ti := 0; ti < nt; ti++ {
 		cl := ti % nc
@@ -264,7 +269,10 @@ func execAside(t *testing.T, plan any, out *Outcome) {
 			lua++
 		}
 	}
-	out.Config = fmt.Sprintf("cl=%d,lua=%d,keys=%d,gh=%d,flt=%d,death=%v,cut=%v", nc, lua, p.Keys, len(p.Ghosts), len(p.Faults), p.Death != nil, p.Sim.CutProb)
+	out.Config = fmt.Sprintf("cl=%d,lua=%d,keys=%d,gh=%d,flt=%d,death=%v,cut=%v,tight=%v", nc, lua, p.Keys, len(p.Ghosts), len(p.Faults), p.Death != nil, p.Sim.CutProb, p.Tight)
+	if p.Tight {
+		s.Cfg.W.Tick = 0
+	}
 
 	var setupErr error
 	rr := e.background("setup", func(ctx context.Context) {
@@ -359,8 +367,56 @@ func execAside(t *testing.T, plan any, out *Outcome) {
 		}
 		s.Ghosts = append(s.Ghosts, &sched.GhostOp{Name: g.Kind + " " + strings.Join(argv, " "), MinStep: base + g.MinStep, Do: func(s *sched.Sim) { s.W.Ghost(e.addr, argv...) }})
 	}
-	for _, f := range p.Faults {
-		s.Faults = append(s.Faults, &sched.Fault{Kind: f.Kind, AtStep: base + f.AtStep, NeedInflight: true, Pick: f.Pick})
+	// Connection faults are scheduler events of this scenario rather than sched.Faults: they only strike connections
+	// that have finished their handshake and carry traffic. (The teardown of a handshake that fails half-way is not
+	// deterministic inside rueidis: whether its clean-up needs a fake millisecond depends on goroutine timing.)
+	faultFired := make([]bool, len(p.Faults))
+	faultsOff := false
+	s.UserEvents = func(s *sched.Sim) []sched.Event {
+		if faultsOff {
+			return nil
+		}
+		for fi, f := range p.Faults {
+			if faultFired[fi] || s.Step < base+f.AtStep {
+				continue
+			}
+			var el []*sched.Link
+			for _, l := range s.LiveLinks() {
+				st.mu.Lock()
+				ci, known := st.connClient[l.ID]
+				st.mu.Unlock()
+				if !known || st.dead[ci].Load() || l.S.UserCmds == 0 || l.CutAfter >= 0 {
+					continue
+				}
+				if l.C.PendingWritten() == 0 && len(l.S.Out) == 0 && l.S.PendingInput() == 0 {
+					continue
+				}
+				el = append(el, l)
+			}
+			if len(el) == 0 {
+				return nil // faults fire in plan order
+			}
+			fi, f, l := fi, f, el[f.Pick%len(el)]
+			return []sched.Event{{Kind: "fault", Key: fmt.Sprintf("%s c%d", f.Kind, l.ID), Weight: 1000, Do: func() {
+				faultFired[fi] = true
+				s.Stats["fault."+f.Kind]++
+				switch f.Kind {
+				case "reset", "eof":
+					s.BreakLink(l, f.Kind, false)
+				case "reset-after-exec":
+					s.BreakLink(l, "reset", true)
+				case "eof-mid-reply":
+					if len(l.S.Out) < 2 {
+						s.BreakLink(l, "eof", false)
+					} else {
+						l.CutAfter, l.CutKind = 1+f.Pick%(len(l.S.Out)-1), "eof"
+					}
+				default:
+					out.HarnessErr = "unknown fault kind " + f.Kind
+				}
+			}}}
+		}
+		return nil
 	}
 
 	taskDead := func(t *sched.Task) bool { return st.dead[clientOfTask[t.ID]].Load() }
@@ -372,6 +428,7 @@ func execAside(t *testing.T, plan any, out *Outcome) {
 		if d := p.Death; d != nil && deathAllowed && st.deathStep == 0 && s.Step >= base+d.AtStep && d.Client < nc {
 			if !d.Holding || st.holdsSomething(e, d.Client, p.Keys) {
 				st.kill(e, d.Client, taskDead)
+				synctest.Wait() // refused dials wake their callers: let them settle before the next event is chosen
 			}
 		}
 		return nil
@@ -392,6 +449,7 @@ func execAside(t *testing.T, plan any, out *Outcome) {
 		reason := rr.Reason
 		if rr.Reason == "stuck" || rr.Reason == "maxsteps" {
 			s.Heal()
+			faultsOff = true
 			s.Cfg.DrainBound = 2 * time.Minute
 			completed := func() int {
 				n := 0
@@ -420,6 +478,7 @@ func execAside(t *testing.T, plan any, out *Outcome) {
 
 	// ---- probe phase: everything healed, every remaining lock must be releasable ----
 	s.Heal()
+	faultsOff = true
 	for _, g := range s.Ghosts {
 		g.Done = true
 	}
@@ -459,6 +518,7 @@ func execAside(t *testing.T, plan any, out *Outcome) {
 		if rec := t.Running(); rec != nil {
 			rec.Hung = true
 		}
+		t.Hold = true // nothing new starts while the clients are being closed
 	}
 	snap := st.snapshot(e)
 
@@ -531,6 +591,12 @@ func (st *asideState) kill(e *simEnv, ci int, taskDead func(*sched.Task) bool) {
 			t.Hold = true
 		}
 	}
+	// a dial of this client that is still waiting for the scheduler's decision must not bring it back
+	for _, d := range s.Net.PendingDials() {
+		if strings.HasPrefix(d.Tag, fmt.Sprintf("cl%d/", ci)) {
+			s.Net.Refuse(d, simnet.ErrRefused)
+		}
+	}
 	s.Stats["fault.client-death"]++
 	s.Logf("step %d death of client %d (%d connections)", s.Step, ci, n)
 }
@@ -599,6 +665,7 @@ func (st *asideState) runCall(ctx context.Context, s *sched.Sim, ti, ci int, c A
 
 // asideSnap is what the oracle needs from the model, copied before the clients are closed.
 type asideSnap struct {
+	seq    int
 	mods   []fakeredis.Mod
 	links  []asideLinkEnd
 	ghosts []*sched.GhostOp
@@ -610,7 +677,7 @@ type asideLinkEnd struct {
 }
 
 func (st *asideState) snapshot(e *simEnv) *asideSnap {
-	sn := &asideSnap{mods: append([]fakeredis.Mod(nil), e.node.DBs.Mods...), ghosts: e.sim.Ghosts}
+	sn := &asideSnap{seq: e.sim.W.Seq(), mods: append([]fakeredis.Mod(nil), e.node.DBs.Mods...), ghosts: e.sim.Ghosts}
 	for _, l := range e.sim.Links {
 		if ci, ok := st.connClient[l.ID]; ok && l.EndStep > 0 {
 			sn.links = append(sn.links, asideLinkEnd{ci, l.EndStep})
@@ -850,6 +917,68 @@ func checkAside(e *simEnv, p *AsidePlan, st *asideState, sn *asideSnap, probeFro
 		out.violate("C39", "load-not-once", "loader of task %d call %d (client %d) started at step %d for %s without a lock of its own while the placeholder %q of client %d (set at step %d, in place until step %d, holder alive) was in place; that holder's own load is task %d call %d started at step %d",
 			ld.Task, ld.Call, ld.Client, ld.StartStep, asideKey(ld.Key), held.ph, held.owner, held.aStep, held.bStep, held.load.Task, held.load.Call, held.load.StartStep)
 	}
+	// ---- rule 3, second half: a live holder's lock is not taken over (judged in tight-clock runs only) ----
+	// the top-level command that caused a modification: the last one received before it
+	cmdOf := func(m fakeredis.Mod) string {
+		name := ""
+		for _, ex := range s.W.Log {
+			if ex.Seq > m.Seq {
+				break
+			}
+			if ex.Conn == m.Conn {
+				name = strings.ToUpper(ex.Argv[0])
+			}
+		}
+		return name
+	}
+	everUnhealthyBefore := func(ci, step int) bool {
+		if st.dead[ci].Load() && st.deathStep <= step {
+			return true
+		}
+		for _, l := range sn.links {
+			if l.client == ci && l.endStep <= step {
+				return true
+			}
+		}
+		return false
+	}
+	for _, l2 := range loads {
+		for _, l1 := range loads {
+			ep := epochOfLoad[l1]
+			if l1 == l2 || l1.Key != l2.Key || ep == nil || !(l2.StartStep > l1.StartStep) || !(l1.EndStep < 0 || l2.StartStep < l1.EndStep) {
+				continue
+			}
+			// l2 started while l1 was running
+			out.probe("two-loaders-ran-concurrently-for-one-key")
+			var end *fakeredis.Mod
+			for i, m := range hist[ep.key] {
+				if m.Seq == ep.bSeq && ep.bSeq != 0 {
+					end = &hist[ep.key][i]
+				}
+			}
+			switch {
+			case !p.Tight:
+				out.notJudged("concurrent-loads-with-loose-clock")
+			case everUnhealthyBefore(l1.Client, l2.StartStep):
+				out.notJudged("concurrent-loads-holder-lost-a-connection")
+			case end == nil || end.Step > l2.StartStep:
+				out.notJudged("concurrent-loads-first-lock-still-in-place") // judged by the first half
+			case end.Conn < 0 || end.Present:
+				out.notJudged("concurrent-loads-lock-removed-by-expiry-or-foreign-writer")
+			case !strings.HasPrefix(cmdOf(*end), "EVAL"):
+				out.notJudged("concurrent-loads-key-deleted-by-a-caller")
+			default:
+				taker, known := st.connClient[end.Conn]
+				if !known || taker == l1.Client {
+					out.notJudged("concurrent-loads-lock-released-by-holder")
+					break
+				}
+				out.judged("takeover-of-live-holders-lock")
+				out.violate("C39", "load-not-once", "the loader for %s ran twice at the same time: task %d call %d (client %d) started it at step %d under placeholder %q (set at step %d) and was still running (until step %d) when task %d call %d (client %d) started it at step %d; client %d never lost a connection and was not killed, no reply or request was late in fake time (tight clock), yet client %d removed its placeholder at step %d as if it were dead",
+					asideKey(l1.Key), l1.Task, l1.Call, l1.Client, l1.StartStep, ep.ph, ep.aStep, l1.EndStep, l2.Task, l2.Call, l2.Client, l2.StartStep, l1.Client, taker, end.Step)
+			}
+		}
+	}
 	// probes about contention
 	for _, g := range gets {
 		if g.res.Err != nil || len(g.res.Loads) > 0 {
@@ -962,10 +1091,10 @@ func checkAside(e *simEnv, p *AsidePlan, st *asideState, sn *asideSnap, probeFro
 				if since.Before(g.rec.StartAt) {
 					since = g.rec.StartAt
 				}
+				out.judged("gave-up-get-on-healthy-client")
 				if !free || g.rec.EndAt.Sub(since) < asideStallAllowance {
-					out.notJudged("gave-up-while-locked-by-live-holder-or-freed-late")
+					out.probe("gave-up-while-locked-by-live-holder-or-freed-late")
 				} else {
-					out.judged("gave-up-on-free-key")
 					out.violate("C39", "get-stalled-on-free-key", "%s gave up with %q at %s although since %s (%.1f s before) the key was not locked by any live holder (it held a value, nothing, or a placeholder without liveness key); it never ran its loader",
 						where, err, g.rec.EndAt.Sub(s.Start), since.Sub(s.Start), g.rec.EndAt.Sub(since).Seconds())
 				}
@@ -980,7 +1109,7 @@ func checkAside(e *simEnv, p *AsidePlan, st *asideState, sn *asideSnap, probeFro
 				// a placeholder of a holder that is still alive when the probe starts is not a dead client's lock
 				liveHolder := false
 				for _, ep := range epochs[g.c.Key] {
-					if ep.aStep <= g.rec.StartStep && (ep.bStep == 0 || ep.bStep > g.rec.StartStep) && presentAfter(ep.ph, g.rec.StartStep) && ep.owner >= 0 && ep.owner != g.client {
+					if ep.aStep <= g.rec.StartStep && (ep.bStep == 0 || ep.bStep > g.rec.StartStep) && presentAfter(ep.ph, g.rec.StartStep) && ep.owner >= 0 {
 						liveHolder = true
 					}
 				}
